@@ -200,6 +200,7 @@ class POP(BaseModelSingleSet):
     def _fit_algorithm(self, X: DataArray) -> Self:
         sample_name = self.sample_name
         feature_name = self.feature_name
+        self.sorted = False
 
         # Transform in PC space
         X = self.pca.fit_transform(X)
